@@ -40,6 +40,7 @@ type LockFile struct {
 	Note        string              `json:"note"`
 	Obligations map[string][]string `json:"obligations"` // property -> obligation names
 	DeadCanaries []string           `json:"dead_canaries,omitempty"` // reachability probes that are refuted on the unchanged tree (dead code, e.g. a redundant nil check)
+	Names        map[string][]DeclName `json:"names,omitempty"`       // per function: declared variables in source order (unchanged tree), to follow pure renames
 }
 
 func loadKnown() ([]KnownFinding, error) {
@@ -256,6 +257,22 @@ func cmdCheck(prop, tier string, jobs int) int {
 		}
 		s.solver.Solve(again, tier == "thorough", timeoutFor(tier), 2)
 	}
+	// an obligation that ran out of time says nothing either: a few of them (a loaded machine) are re-run with a long budget
+	// and little parallelism; many of them at once are a real change of the code and are reported as they are
+	{
+		var slow []*Obligation
+		for _, ob := range smtObs {
+			if ob.Result == "timeout" && ob.vc != nil {
+				slow = append(slow, ob)
+			}
+		}
+		if n := len(slow); n > 0 && n <= 16 {
+			for _, ob := range slow {
+				ob.Result, ob.Raw, ob.Backend = "", "", ""
+			}
+			s.solver.Solve(slow, tier == "thorough", 60, 4)
+		}
+	}
 	s.solver.SolveCanaries(pr.canaries, jobs)
 
 	violations := 0
@@ -291,8 +308,19 @@ func cmdCheck(prop, tier string, jobs int) int {
 		}
 		report(ob, "obligation not discharged: "+ob.Result)
 	}
+	haveNorm := map[string]int{}
+	for name := range present {
+		haveNorm[normLockName(name)]++
+	}
+	wantNorm := map[string]int{}
 	for _, name := range lock.Obligations[prop] {
-		if !present[name] {
+		wantNorm[normLockName(name)]++
+	}
+	for _, name := range lock.Obligations[prop] {
+		// moving code into a helper, or adding a call of the same callee earlier in the function, shifts call-site ordinals and
+		// block numbers: an obligation counts as still generated when there are at least as many obligations of its function,
+		// kind and label as on the unchanged tree
+		if !present[name] && haveNorm[normLockName(name)] < wantNorm[normLockName(name)] {
 			ob := &Obligation{Name: name, Kind: "vanished", Result: "missing", Raw: "obligation is listed in obligations.lock.json (it exists and is discharged on the unchanged tree) but was not generated from the current tree: the code it speaks about is gone or no longer matches its contract"}
 			report(ob, "locked obligation vanished")
 		}
@@ -512,6 +540,7 @@ func cmdLock(jobs int) int {
 		}
 	}
 	lock.DeadCanaries = sortedKeys(dead)
+	lock.Names = s.g.allDeclaredNames()
 	b, _ := json.MarshalIndent(lock, "", " ")
 	if err := os.WriteFile(filepath.Join(verifDir, "obligations.lock.json"), b, 0o644); err != nil {
 		fmt.Fprintln(os.Stderr, err)
@@ -519,6 +548,11 @@ func cmdLock(jobs int) int {
 	}
 	return rc
 }
+
+var reLockOrd = regexp.MustCompile(`#\d+|@b\d+|~\d+|inl:[^/]*/`)
+
+// normLockName drops call-site ordinals, block numbers, duplicate counters and inlining prefixes from an obligation name.
+func normLockName(name string) string { return reLockOrd.ReplaceAllString(name, "") }
 
 func propsList() []string {
 	var out []string
